@@ -322,7 +322,7 @@ WIDE_ITEMS = [f"u {U64}", f"n {1 << 32}", f"tag {U64 - 1}", f"arr {1 << 63}", f"
               "f 7ff0000000000000", "u 65536", "u 256", "u 24", "text 616263", "bytes -", "bool 1", "null", "indef_map", "brk"]
 
 
-def case_growth_edge(rng, d=None, item=None):
+def case_growth_edge(rng, d=None, item=None, reset=None):
     """bring the encoder to exactly capacity - d bytes (d = 0..10) with 1-byte items, then write an item whose reservation
     (9 / 5 / 1 / 9+len bytes) straddles the capacity: the growth decision and the room for the libcbor call are on the edge"""
     d = rng.randint(0, 10) if d is None else d
@@ -336,6 +336,11 @@ def case_growth_edge(rng, d=None, item=None):
     if rng.random() < 0.5:
         ops.append(rng.choice(WIDE_ITEMS))
     ops += ["enc", "decode_all"]
+    if reset or (reset is None and rng.random() < 0.35):
+        # the same encoder reused after a reset: nothing of the old content or bookkeeping may survive
+        ops += ["reset", "enc", rng.choice(WIDE_ITEMS), scalar_op(rng, False), "enc", "decode_all"]
+        if rng.random() < 0.5:
+            ops += ["reset", "reset", "null", "enc", "decode_all"]
     return Case(ops, {"kind": "growth"})
 
 
@@ -484,7 +489,7 @@ def rand_valid_bytes(rng, depth=3):
             return bytes([0xF9]) + rng.choice([0x0000, 0x8000, 0x0001, 0x03FF, 0x0400, 0x3C00, 0x7BFF, 0x7C00, 0xFC00, 0x7C01, 0x7E00, 0xFE01,
                                                rng.getrandbits(16)]).to_bytes(2, "big")
         if k < 0.7:
-            return bytes([0xFA]) + rng.choice([0, 1, 0x007FFFFF, 0x00800000, 0x7F7FFFFF, 0x7F800000, 0x7F800001, 0xFFC00001, 0x7FA00000,
+            return bytes([0xFA]) + rng.choice([0, 1, 0x007FFFFF, 0x00800000, 0x7F7FFFFF, 0x7F800000, 0x7F800001, 0xFFC00001, 0x7FA00000, 0x80000000, 0x80000001, 0x807FFFFF, 0xFF800000, 0x3F800000, 0xBF800000, 0xFF7FFFFF,
                                                rng.getrandbits(32)]).to_bytes(4, "big")
         if k < 0.8:
             return bytes([0xFB]) + rand_double(rng).to_bytes(8, "big")
@@ -568,7 +573,7 @@ def gen_cases(rng, tier):
     for d in range(0, 11):
         for item in [f"u {U64}", "f 3ff0000000000001", "f 3ff8000000000000", "text 616263"] + \
                 (["indef_arr", "brk", "indef_text", "null", "bool 1"] if d < 3 else []):
-            cases.append(case_growth_edge(rng, d, item))
+            cases.append(case_growth_edge(rng, d, item, reset=(d < 3)))
     for _ in range(400 if q else 12000):
         cases.append(case_map_keys(rng))
     cases += degenerate_cases()
